@@ -195,10 +195,29 @@ impl Lsp {
 
     /// changes: (optional range [[l,c],[l,c]], text)
     pub fn did_change(&mut self, uri: &str, version: i64, changes: &[(Option<[[u32; 2]; 2]>, String)]) -> Result<(), LspError> {
+        self.did_change_with_lengths(uri, version, changes, &[])
+    }
+
+    /// As `did_change`; `lengths[i]`, if given, is sent as the (deprecated, still widely sent) `rangeLength` of
+    /// change i: the length of the replaced range in UTF-16 code units.
+    pub fn did_change_with_lengths(
+        &mut self,
+        uri: &str,
+        version: i64,
+        changes: &[(Option<[[u32; 2]; 2]>, String)],
+        lengths: &[Option<u32>],
+    ) -> Result<(), LspError> {
         let cs: Vec<Value> = changes
             .iter()
-            .map(|(r, t)| match r {
-                Some(r) => json!({"range": {"start": {"line": r[0][0], "character": r[0][1]}, "end": {"line": r[1][0], "character": r[1][1]}}, "text": t}),
+            .enumerate()
+            .map(|(i, (r, t))| match r {
+                Some(r) => {
+                    let mut c = json!({"range": {"start": {"line": r[0][0], "character": r[0][1]}, "end": {"line": r[1][0], "character": r[1][1]}}, "text": t});
+                    if let Some(Some(l)) = lengths.get(i) {
+                        c["rangeLength"] = json!(l);
+                    }
+                    c
+                }
                 None => json!({"text": t}),
             })
             .collect();
